@@ -80,6 +80,20 @@ type c02Case struct {
 	Intent  ref.Intent `json:"intent"`
 	Debug   bool       `json:"debug"`
 	Perturb int        `json:"perturb"` // 0 none, 1 OWS, 2 empty elements, 3 split in two lines, 4 all
+	// Route: how the middleware was brought into the configuration (see suite.go); WarmOrigin != "": on routes
+	// that serve requests first, requests from this origin are among them
+	Route      int    `json:"route,omitempty"`
+	WarmOrigin string `json:"warm_origin,omitempty"`
+}
+
+func c02Warm(o string) []vlib.Req {
+	if o == "" {
+		return nil
+	}
+	return []vlib.Req{
+		{Method: "OPTIONS", Hdr: map[string][]string{"Origin": {o}, "Access-Control-Request-Method": {"PUT"}, "Access-Control-Request-Headers": {"authorization,x-foo"}}},
+		{Method: "GET", Hdr: map[string][]string{"Origin": {o}}},
+	}
 }
 
 // c02Perturb applies an alteration that the documentation says intermediaries may make.
@@ -151,16 +165,18 @@ func c02BrowseRec(h http.Handler, in ref.Intent, perturb int, rec *vlib.Rec) (bo
 }
 
 func c02Judge(k c02Case) *vlib.Failure {
-	m, err := cors.NewMiddleware(k.Cfg.Config())
-	if err != nil {
+	if _, err := cors.NewMiddleware(k.Cfg.Config()); err != nil {
 		return nil // not an accepted configuration: outside the property's domain
 	}
-	m.SetDebug(k.Debug)
+	m, err := buildVia(k.Route, k.Cfg, k.Debug, c02Warm(k.WarmOrigin)...)
+	if err != nil {
+		return vlib.Failf("configuration accepted by NewMiddleware but not through route %q: %v", routeNames[k.Route], err)
+	}
 	h := m.Wrap(http.HandlerFunc(func(http.ResponseWriter, *http.Request) {}))
 	got, why := c02Browse(h, k.Intent, k.Perturb)
 	want := ref.Permits(k.Cfg.Policy(), k.Intent)
 	if got != want {
-		return vlib.Failf("browser verdict=%t (%s) but the configuration permits the request: %t; config=%s intent=%+v debug=%t perturbation=%d", got, why, want, k.Cfg.GoLiteral(), k.Intent, k.Debug, k.Perturb)
+		return vlib.Failf("browser verdict=%t (%s) but the configuration permits the request: %t; config=%s intent=%+v debug=%t perturbation=%d route=%q warm origin=%q", got, why, want, k.Cfg.GoLiteral(), k.Intent, k.Debug, k.Perturb, routeNames[k.Route], k.WarmOrigin)
 	}
 	return nil
 }
@@ -305,10 +321,15 @@ func checkC02(c *vlib.Ctx) (string, string) {
 	var accepted, rejected int64
 	c.ParRange(int64(len(cfgs)), 1, "C02 configurations", func(i int64) {
 		lit := cfgs[i]
-		m, err := cors.NewMiddleware(lit.Config())
-		if err != nil {
+		if _, err := cors.NewMiddleware(lit.Config()); err != nil {
 			c.Evaluations.Add(1)
 			c.Transitions.Add(1)
+			return
+		}
+		route := int(i % nRoutes)
+		m, err := buildVia(route, lit, false)
+		if err != nil {
+			ck.Report(c02Case{Cfg: lit, Route: route}, vlib.Failf("configuration accepted by NewMiddleware but not through route %q: %v", routeNames[route], err))
 			return
 		}
 		c.States.Add(1)
@@ -331,7 +352,42 @@ func checkC02(c *vlib.Ctx) (string, string) {
 					evals++
 					got, _ := c02BrowseRec(h, in, pt, rec)
 					if got != want {
-						k := c02Case{lit, in, dbg, pt}
+						k := c02Case{Cfg: lit, Intent: in, Debug: dbg, Perturb: pt, Route: route}
+						if f := vlib.Guard(func() *vlib.Failure { return c02Judge(k) }); f != nil {
+							ck.Report(k, f)
+						} else {
+							vlib.HarnessError("fast path and judge disagree on %+v", k)
+						}
+					}
+				}
+			}
+		}
+		// second pass: for every origin, a middleware that has just served requests from that very origin under
+		// another configuration (route 2) or is reconfigured while such a request is in flight (route 6)
+		seenO := map[string]bool{}
+		for _, in0 := range ins {
+			if seenO[in0.Origin] {
+				continue
+			}
+			seenO[in0.Origin] = true
+			for _, r2 := range []int{2, 6} {
+				if !c.Thorough() && (int(i)+r2/4)%2 == 0 {
+					continue // quick tier: one of the two routes per configuration, alternating
+				}
+				m2, err := buildVia(r2, lit, false, c02Warm(in0.Origin)...)
+				if err != nil {
+					ck.Report(c02Case{Cfg: lit, Route: r2, WarmOrigin: in0.Origin}, vlib.Failf("configuration accepted by NewMiddleware but not through route %q: %v", routeNames[r2], err))
+					continue
+				}
+				h2 := m2.Wrap(http.HandlerFunc(func(http.ResponseWriter, *http.Request) {}))
+				for _, in := range ins {
+					if in.Origin != in0.Origin {
+						continue
+					}
+					evals++
+					got, _ := c02BrowseRec(h2, in, 0, rec)
+					if got != ref.Permits(pol, in) {
+						k := c02Case{Cfg: lit, Intent: in, Route: r2, WarmOrigin: in0.Origin}
 						if f := vlib.Guard(func() *vlib.Failure { return c02Judge(k) }); f != nil {
 							ck.Report(k, f)
 						} else {
@@ -344,7 +400,7 @@ func checkC02(c *vlib.Ctx) (string, string) {
 		c.Evaluations.Add(evals)
 		c.Transitions.Add(evals * 2)
 		c.Nontrivial.Add(nontrivial)
-		c.SampleAt(i+1, func() any { return c02Case{lit, ins[len(ins)/3], false, 0} })
+		c.SampleAt(i+1, func() any { return c02Case{Cfg: lit, Intent: ins[len(ins)/3], Route: route} })
 	})
 	for _, l := range cfgs {
 		_ = l
